@@ -36,6 +36,7 @@ type solveResult struct {
 	Backend string
 	TimeS   float64
 	Output  string
+	Cached  bool
 	Values  map[string]string // get-value results when sat
 	All     map[string]string // per back end answers (thorough tier)
 }
@@ -117,6 +118,7 @@ func raceSolveOn(scratch, name, query string, timeoutS int, all bool, backends [
 	res := solveResult{Answer: "timeout", All: map[string]string{}}
 	var firstDef *one
 	var outs []string
+	nerr := 0
 	for o := range ch {
 		o := o
 		res.All[o.be] = o.ans
@@ -133,6 +135,9 @@ func raceSolveOn(scratch, name, query string, timeoutS int, all bool, backends [
 		} else if firstDef == nil && o.ans == "unknown" {
 			res.Answer = "unknown"
 		}
+		if o.ans == "error" {
+			nerr++
+		}
 	}
 	if firstDef != nil && res.Answer != "disagree" {
 		res.Answer = firstDef.ans
@@ -144,8 +149,11 @@ func raceSolveOn(scratch, name, query string, timeoutS int, all bool, backends [
 		}
 	} else {
 		res.Output = strings.Join(outs, "\n")
+		if nerr == len(backends) {
+			res.Answer = "error" // every back end rejected the query: a defect of the generator, not of the code
+		}
 	}
-	if res.Answer == "unsat" || res.Answer == "sat" {
+	if (res.Answer == "unsat" || res.Answer == "sat") && os.Getenv("GOVC_KEEP_ALL") == "" {
 		os.Remove(file)
 	}
 	return res
